@@ -744,6 +744,77 @@ func vC16CorpusWrap(path string) []map[string]any {
 	return out
 }
 
+// CacheEntry.IsExpired on real entries against the translated function's model (CaseExp):
+// entries whose ttl / cutUntil end hours, seconds or microseconds before or after "now"
+// (and entries without a cut), the clock read before and after the calls.  Where the
+// model's verdict is the same at both readings the code must agree — no verdict depends
+// on where inside the bracket the calls fell.
+func vC16ExpCase(r *rand.Rand, n int) map[string]any {
+	type ent struct {
+		e *CacheEntry
+		b bool
+	}
+	base := time.Now()
+	spans := []time.Duration{100 * time.Hour, time.Hour, 3 * time.Second, 20 * time.Microsecond, 0}
+	off := func() time.Duration {
+		s := spans[r.Intn(len(spans))]
+		if s == 0 {
+			return 0
+		}
+		return time.Duration(r.Int63n(int64(2*s))) - s
+	}
+	ents := make([]ent, n)
+	for i := range ents {
+		stored := base.Add(off() - time.Hour)
+		// ttl so that stored+ttl lands at base+off(); clamped at 0 like a stored TTL
+		ttl := base.Add(off()).Sub(stored)
+		if ttl < 0 || r.Intn(10) == 0 {
+			ttl = time.Duration(r.Intn(2)) * time.Second * time.Duration(r.Intn(4000))
+		}
+		e := &CacheEntry{stored: stored, ttl: ttl}
+		if r.Intn(2) == 0 {
+			e.cutUntil = base.Add(off())
+			if e.cutUntil.Equal(base) {
+				e.cutUntil = base.Add(time.Nanosecond)
+			}
+		}
+		ents[i] = ent{e: e}
+	}
+	lo := time.Now()
+	for i := range ents {
+		ents[i].b = ents[i].e.IsExpired()
+	}
+	hi := time.Now()
+	var obs []string
+	goFail := ""
+	nExp := 0
+	for _, x := range ents {
+		cut := int64(0)
+		ends := x.e.stored.Add(x.e.ttl)
+		if !x.e.cutUntil.IsZero() {
+			cut = int64(x.e.cutUntil.Sub(base))
+			if x.e.cutUntil.Before(ends) {
+				ends = x.e.cutUntil
+			}
+		}
+		if !ends.After(lo) && !x.b && goFail == "" {
+			goFail = fmt.Sprintf("entry stored %v ttl %v cut %v: ended %v before the clock was read, IsExpired() = false", x.e.stored.Sub(base), x.e.ttl, cut, lo.Sub(ends))
+		}
+		if ends.After(hi) && x.b && goFail == "" {
+			goFail = fmt.Sprintf("entry stored %v ttl %v cut %v: %v left after the clock was read, IsExpired() = true", x.e.stored.Sub(base), x.e.ttl, cut, ends.Sub(hi))
+		}
+		if x.b {
+			nExp++
+		}
+		obs = append(obs, fmt.Sprintf("Eobs %s %s %s %v", vC16Z(int64(x.e.stored.Sub(base))), vC16Z(int64(x.e.ttl)), vC16Z(cut), x.b))
+	}
+	return map[string]any{
+		"k": "expiry", "coq": fmt.Sprintf("CaseExp %s %s [%s]", vC16Z(int64(lo.Sub(base))), vC16Z(int64(hi.Sub(base))), strings.Join(obs, "; ")),
+		"go_fail": goFail, "nontrivial": nExp > 0 && nExp < n,
+		"desc": map[string]any{"entries": n, "expired": nExp, "bracket_ns": int64(hi.Sub(lo))},
+	}
+}
+
 func TestVerifC16Wrap(t *testing.T) {
 	tr := vC16Open(t)
 	defer tr.f.Close()
@@ -763,6 +834,9 @@ func TestVerifC16Wrap(t *testing.T) {
 			size, nops = []int{1, 1, 2, 3, 5}[r.Intn(5)], 8+r.Intn(12)
 		}
 		tr.emit(vC16WrapHistory(r, c%4 >= 2, size, nops))
+	}
+	for c := 0; c < 6; c++ {
+		tr.emit(vC16ExpCase(r, 40))
 	}
 	rounds, emit := 1000, 30
 	chase, cemit := 80000, 12
